@@ -123,7 +123,28 @@ func splitVariant(name string) (base, variant string) {
 	return name, ""
 }
 
+// placement variants, written name@far / @huge / @tiny: the model moved 1e7 units
+// away, scaled by 1e6, scaled by 1e-6 (a renderer must cope with any of them)
+func splitPlacement(name string) (base, place string) {
+	if i := strings.IndexByte(name, '@'); i >= 0 {
+		return name[:i], name[i+1:]
+	}
+	return name, ""
+}
+
 func buildModel3(name string, lw *leafWrapper) sdf.SDF3 {
+	if base, place := splitPlacement(name); place != "" {
+		s := buildModel3(base, lw)
+		switch place {
+		case "far":
+			return sdf.Transform3D(s, sdf.Translate3d(v3.Vec{X: 1e7, Y: -3e7, Z: 2e6}))
+		case "huge":
+			return sdf.ScaleUniform3D(s, 1e6)
+		case "tiny":
+			return sdf.ScaleUniform3D(s, 1e-6)
+		}
+		panic("unknown placement " + place)
+	}
 	if base, variant := splitVariant(name); variant != "" {
 		s := buildModel3(base, lw)
 		applyVariant(base, variant, s)
@@ -186,6 +207,18 @@ func buildModel3(name string, lw *leafWrapper) sdf.SDF3 {
 }
 
 func buildModel2(name string, lw *leafWrapper) sdf.SDF2 {
+	if base, place := splitPlacement(name); place != "" {
+		s := buildModel2(base, lw)
+		switch place {
+		case "far":
+			return sdf.Transform2D(s, sdf.Translate2d(v2.Vec{X: 1e7, Y: -3e7}))
+		case "huge":
+			return sdf.ScaleUniform2D(s, 1e6)
+		case "tiny":
+			return sdf.ScaleUniform2D(s, 1e-6)
+		}
+		panic("unknown placement " + place)
+	}
 	switch name {
 	case "poly":
 		return lw.w2(starPolygon())
